@@ -14,6 +14,7 @@ pub struct Weights {
     pub store: u32,
     pub adopt_slot: u32,
     pub unadopt: u32,
+    pub loopback: u32,
     pub remove: u32,
     pub downgrade: u32,
     pub clone_weak: u32,
@@ -36,6 +37,7 @@ impl Weights {
             store: 16,
             adopt_slot: 6,
             unadopt: 5,
+            loopback: 2,
             remove: 7,
             downgrade: 5,
             clone_weak: 2,
@@ -98,6 +100,7 @@ fn plain_op(wt: &Weights) -> BoxedStrategy<Op> {
         (wt.store, (s(), s(), 0u8..7).prop_map(|(owner, target, a)| Op::Store { owner, target, adopt: [0u8, 1, 1, 1, 2, 2, 2][a as usize] }).boxed()),
         (wt.adopt_slot, (s(), any::<bool>()).prop_map(|(pick, same_instance)| Op::AdoptSlot { pick, same_instance }).boxed()),
         (wt.unadopt, (s(), s()).prop_map(|(a, b)| Op::Unadopt { a, b }).boxed()),
+        (wt.loopback, s().prop_map(Op::LoopbackAdopt).boxed()),
         (
             wt.remove,
             (s(), s(), any::<bool>(), any::<bool>()).prop_map(|(owner, slot, unadopt, keep)| Op::Remove { owner, slot, unadopt, keep }).boxed(),
@@ -131,6 +134,7 @@ fn dact(g: &GenCfg) -> BoxedStrategy<DAct> {
     let mut v: Vec<(u32, BoxedStrategy<DAct>)> = vec![
         (3, s().prop_map(DAct::UpgradeOwnWeak).boxed()),
         (2, s().prop_map(DAct::DropOwnSlot).boxed()),
+        (2, s().prop_map(DAct::DowngradeOwnSlot).boxed()),
         (2, Just(DAct::Observe).boxed()),
     ];
     if g.dact_ops {
@@ -164,7 +168,7 @@ fn op(g: &GenCfg) -> BoxedStrategy<Op> {
     let wn = g.weights.new;
     let total: u32 = {
         let w = &g.weights;
-        w.new + w.clone + w.drop + w.drop_closure + w.store + w.adopt_slot + w.unadopt + w.remove + w.downgrade + w.clone_weak + w.drop_weak + w.upgrade + w.store_weak + w.remove_weak + w.weak_new + w.probe + w.consume * 15
+        w.new + w.clone + w.drop + w.drop_closure + w.store + w.adopt_slot + w.unadopt + w.loopback + w.remove + w.downgrade + w.clone_weak + w.drop_weak + w.upgrade + w.store_weak + w.remove_weak + w.weak_new + w.probe + w.consume * 15
     };
     let mut wt = g.weights.clone();
     wt.new = 0;
@@ -185,6 +189,9 @@ enum Shape {
     TwoRings { a: usize, b: usize },
     SelfLoop { n: usize },
     Random { n: usize, edges: Vec<(u8, u8)> },
+    /// larger groups (size thresholds in the trace, long rings): ring over n
+    /// objects plus chords
+    Big { n: usize, chords: Vec<(u8, u8)> },
 }
 
 fn shape(max_n: usize) -> BoxedStrategy<Shape> {
@@ -196,6 +203,7 @@ fn shape(max_n: usize) -> BoxedStrategy<Shape> {
         2 => (2..=3usize, 2..=3usize).prop_map(|(a, b)| Shape::TwoRings { a, b }),
         2 => (1..=mx.min(3)).prop_map(|n| Shape::SelfLoop { n }),
         6 => (1..=mx, vec((any::<u8>(), any::<u8>()), 0..10)).prop_map(|(n, edges)| Shape::Random { n, edges }),
+        2 => (9usize..=36, vec((any::<u8>(), any::<u8>()), 0..6)).prop_map(|(n, chords)| Shape::Big { n, chords }),
     ]
     .boxed()
 }
@@ -257,6 +265,11 @@ fn shape_edges(s: &Shape) -> (usize, Vec<(usize, usize)>) {
             (*n, e)
         }
         Shape::Random { n, edges } => (*n, edges.iter().map(|&(a, b)| (a as usize % n, b as usize % n)).collect()),
+        Shape::Big { n, chords } => {
+            let mut e: Vec<(usize, usize)> = (0..*n).map(|i| (i, (i + 1) % n)).collect();
+            e.extend(chords.iter().map(|&(a, b)| (a as usize % n, b as usize % n)));
+            (*n, e)
+        }
     }
 }
 
@@ -293,6 +306,19 @@ fn prefix_ops(n: usize, edges: &[(usize, usize)], adopt_flags: &[u8], dscripts: 
             ops.push(Op::DropWeak(0xffff));
         }
     }
+    // which outside handles remain: drop some creation roots right away (most
+    // of them for big shapes, so that few outside handles hold a large group)
+    let big = n >= 9;
+    let mut present: Vec<usize> = (0..n).collect();
+    for i in 0..n {
+        let f = adopt_flags.get((i * 7 + 3) % adopt_flags.len().max(1)).copied().unwrap_or(0) as usize + i * 37;
+        let drop_it = if big { f % 8 != 0 } else { f % 4 == 0 };
+        if drop_it && present.len() > 1 {
+            let idx = present.iter().position(|&y| y == i).unwrap();
+            ops.push(Op::DropRoot(sel_for(idx, present.len())));
+            present.remove(idx);
+        }
+    }
     ops
 }
 
@@ -303,7 +329,7 @@ pub fn script(g: GenCfg) -> BoxedStrategy<Script> {
     let cleanup = g.cleanup;
     let max_ops = g.max_ops;
     let weak_back = g.weak_back;
-    let pre = (0u32..100, shape(g.max_prefix_objs), vec(any::<u8>(), 24), vec(dscript(&g), 6)).prop_map(move |(p, sh, flags, ds)| {
+    let pre = (0u32..100, shape(g.max_prefix_objs), vec(any::<u8>(), 48), vec(dscript(&g), 6)).prop_map(move |(p, sh, flags, ds)| {
         let sh = if p < prefix_pct { sh } else { Shape::None };
         let (n, e) = shape_edges(&sh);
         prefix_ops(n, &e, &flags, ds, mode, adopt_pct, weak_back)
